@@ -960,6 +960,7 @@ struct Digit {
             index += SizeT(number_length - precision);
 
             roundStringNumber(stream, index, power_increased, round_up);
+            storage = stream.Storage(); // The carry may have been appended.
 
             if (is_positive_exp) {
                 const SizeT diff =
@@ -1063,6 +1064,7 @@ struct Digit {
                 if (fraction_length > precision) {
                     index += SizeT(fraction_length - (precision + SizeT{1}));
                     roundStringNumber(stream, index, power_increased, (round_up | (diff != 0)));
+                    storage = stream.Storage(); // The carry may have been appended.
 
                     Char_T       *number = (storage + index);
                     const Char_T *last   = stream.Last();
@@ -1151,7 +1153,8 @@ struct Digit {
         const bool round =
             (((*number > DigitUtils::DigitChar::Five) ||
               ((*number == DigitUtils::DigitChar::Five) &&
-               (round_up || ((SizeT32(stream.First()[index] - DigitUtils::DigitChar::Zero) & 1U) == 1U)))));
+               (round_up ||
+                ((number < last) && ((SizeT32(stream.First()[index] - DigitUtils::DigitChar::Zero) & 1U) == 1U))))));
 
         if (round) {
             ++number;
@@ -1161,7 +1164,11 @@ struct Digit {
                 ++number;
             }
 
-            if ((number > last) || (*number == DigitUtils::DigitChar::Nine)) {
+            if (number > last) {
+                // The rounded digit was the leading one: the carry becomes a new leading digit.
+                power_increased = true;
+                stream += DigitUtils::DigitChar::One;
+            } else if (*number == DigitUtils::DigitChar::Nine) {
                 power_increased         = true;
                 stream.Storage()[index] = DigitUtils::DigitChar::One;
             } else {
